@@ -137,6 +137,7 @@ def run(ctx):
                     if isinstance(a, ast.Call) and isinstance(a.func, ast.Attribute) and a.func.attr == "get" and \
                             dotted(a.func.value) == var and a.args and const_str(a.args[0]) == key and pol:
                         guarded = True
+                guarded = guarded or _validated_before(fs, x, var, key)
                 h = local_container(fs, x, catches={"KeyError", "TypeError", "LookupError"})
                 converts = h is not None and any(isinstance(s, ast.Raise) and s.exc is not None and "Error" in norm(s.exc) and
                                                  "KeyError" not in norm(s.exc) for s in ast.walk(h))
@@ -190,3 +191,48 @@ def _fresh(e):
     if isinstance(e, ast.Attribute) and e.attr == "status":
         return True, "immutable string"
     return False, ""
+
+
+def _validated_before(f, use, var, key) -> bool:
+    """An earlier statement that dominates *use* raises a library error when *key* is absent from *var*:
+    an ``if`` whose body raises an XStateMachineError subclass and whose condition depends (through
+    local assignments) on an expression mentioning both the variable and the key constant."""
+    g = cfg_of(f.node)
+    use_nodes = cfg_node_of(f, use)
+    for x in own_nodes(f.node):
+        if not isinstance(x, ast.If):
+            continue
+        if not any(isinstance(s_, ast.Raise) and s_.exc is not None and "Error" in norm(s_.exc) and "KeyError" not in norm(s_.exc) for s_ in x.body):
+            continue
+        tn = g.nodes_of(x.test)
+        if not tn or not all(g.always_before(tn, u, follow_exc=False) for u in use_nodes):
+            continue
+        # expressions the condition depends on
+        exprs = [x.test]
+        seen = set()
+        work = list(names_in_expr(x.test))
+        while work:
+            nm = work.pop()
+            if nm in seen:
+                continue
+            seen.add(nm)
+            for a in assignments_to(f, nm):
+                v = getattr(a, "value", None)
+                if v is not None:
+                    exprs.append(v)
+                    work.extend(names_in_expr(v))
+            # augmenting calls:  missing.append("configuration") under a test on the variable
+            for y in own_nodes(f.node):
+                if isinstance(y, ast.Call) and isinstance(y.func, ast.Attribute) and dotted(y.func.value) == nm and y.func.attr in ("append", "add", "extend"):
+                    exprs.extend(y.args)
+                    for at, pol in guards_at(f, y):
+                        exprs.append(at)
+        mentions_var = any(isinstance(n_, ast.Name) and n_.id == var for e in exprs for n_ in ast.walk(e))
+        mentions_key = any(const_str(n_) == key for e in exprs for n_ in ast.walk(e))
+        if mentions_var and mentions_key:
+            return True
+    return False
+
+
+def names_in_expr(e):
+    return {n_.id for n_ in ast.walk(e) if isinstance(n_, ast.Name)}
